@@ -542,7 +542,11 @@ def r_required(model, rep):
                 probes = ("has_option",) if (qname, k) in REQUIRED_IN_OPTIONAL_SECTION else ("has_option", "has_section")
                 guarded = any(T.contains(g[0], lambda x: x[0] == "call" and x[1][0] == "attr" and x[1][2] in probes)
                               for g in r.guards)
-                soft = s[1] == "soft" or guarded
+                # a JSON key copied only when present (``if k in section: self.k = section[k]``): absent, the attribute keeps
+                # the value __init__ gave it
+                kept_init = s[1] != "soft" and any(
+                    g[1] is True and g[0][0] == "cmp" and g[0][1] == ("in",) and g[0][2][0] == ("const", k) for g in r.guards)
+                soft = s[1] == "soft" or guarded or kept_init
                 if not soft:
                     rep.ob("R-REQUIRED", "%s:%s" % (qname, k), True, site="%s:%s" % (cls.module.rel(), r.ev.lineno),
                            facts={"access": "hard"})
@@ -559,6 +563,12 @@ def r_required(model, rep):
                     continue
                 rejected = False
                 d = s[2] if s[1] == "soft" else None
+                if kept_init:
+                    ia_ = cls.init_attrs(model).get(r.attr)
+                    try:
+                        d = ("const", model.fold(ia_.value, ia_.cls.module)) if ia_ is not None and ia_.value is not None else ("const", None)
+                    except NotConst:
+                        d = None
                 if d is not None:
                     # a default that depends on the format version only: the one in force for a current-version document
                     d = facts.pick_at_version(d, V)
